@@ -760,6 +760,31 @@ def caps_summary(caps):
     return out
 
 
+def encode_open_9072(asn2: int, hold: int, router_id: str, caps, version: int = 4, non_ext_len: int = 255,
+                     grouping: str = 'one-per-param') -> bytes:
+    """RFC 9072 section 2 extended encoding with a chosen 'Non-Ext OP Len.' octet.  The RFC says that
+    octet SHOULD be 255, MUST NOT be 0 and MUST be ignored by the receiver once 'Non-Ext OP Type' is 255."""
+    if not 1 <= non_ext_len <= 255:
+        raise ValueError('Non-Ext OP Len. must be 1..255')
+    tlvs = [bytes([c, len(v)]) + v for c, v in caps]
+    if grouping == 'all-in-one':
+        blob = b''.join(tlvs)
+        params = [(2, blob)] if blob else []
+    else:
+        params = [(2, t) for t in tlvs]
+    p = b''.join(bytes([t]) + struct.pack('!H', len(v)) + v for t, v in params)
+    opt = bytes([non_ext_len, 255]) + struct.pack('!H', len(p)) + p
+    return bytes([version]) + struct.pack('!HH', asn2, hold) + ipaddress.ip_address(router_id).packed + opt
+
+
+def decode_open_9072(body: bytes):
+    """decode_open, except that the extended format is recognised the way RFC 9072 section 2 words it:
+    by 'Non-Ext OP Type' == 255 alone ('Non-Ext OP Len.' is ignored on receipt, it only must not be 0)."""
+    if len(body) >= 13 and body[9] not in (0, 255) and body[10] == 255:
+        return decode_open(body[:9] + b'\xff' + body[10:])
+    return decode_open(body)
+
+
 def encode_notification(code: int, subcode: int, data: bytes = b'') -> bytes:
     return bytes([code, subcode]) + data
 
